@@ -296,3 +296,11 @@ func Snapshot[T any](p *T) func() {
 	v := *p
 	return func() { *p = v }
 }
+
+// DrainPools empties every sync.Pool of the process (two garbage collections:
+// the second one drops the victim caches). Generated reset hooks call it when
+// an instrumented package has a package-level sync.Pool.
+func DrainPools() {
+	runtime.GC()
+	runtime.GC()
+}
